@@ -1,26 +1,24 @@
-"""Per-property configuration of the driver: package, tier sizes, level, the
-non-triviality rule that goes into the evidence, and what the check assumes."""
+"""Per-property configuration of the driver. Each check package harness/cNN/ carries its own cfg.py
+defining CFG = dict(...): tier sizes, level, the non-triviality rule that goes into the evidence, what the
+check assumes. Keys: pkg, race, level, rule, assumptions, technique, level_text, level_note, engine,
+shards_quick/shards_thorough, timeout_quick/timeout_thorough (seconds), run_quick/run_thorough (-test.run
+regexp), env/env_quick/env_thorough, fuzz (list of native fuzz campaigns, thorough tier only), unclaimed."""
+import glob, os, runpy
 
+ROOT = os.path.dirname(os.path.abspath(__file__))
 PROPS = {}
+# properties that this family of technique cannot decide (none so far); id -> reason
 NOT_APPLICABLE = {}
+# commits in /repo that add verif-tagged hooks
 HOOK_COMMITS = []
 
+for f in sorted(glob.glob(os.path.join(ROOT, "harness", "c[0-9][0-9]", "cfg.py"))):
+    pid = os.path.basename(os.path.dirname(f)).upper()
+    cfg = runpy.run_path(f)["CFG"]
+    cfg.setdefault("pkg", pid.lower())
+    cfg.setdefault("level", "exploration")
+    PROPS[pid] = cfg
 
-def prop(pid, **kw):
-    kw.setdefault("pkg", pid.lower())
-    kw.setdefault("level", "exploration")
-    PROPS[pid] = kw
-
-
-prop("C16",
-     rule="Cases: (limit N, source length, read-chunk script incl. zero-length reads, EOF-with-data or EOF-alone, optional sticky "
-          "source error at an offset, consumer = buffer-size script | io.ReadAll | io.Copy/WriteTo) for LimitReadCloser, "
-          "MultiReaderCloser (0..4 sources, closable or not) and TeeReadCloser (recording / failing writer); exhaustive sweeps for "
-          "N<=5(7) x all compositions, rapid for the rest. Non-trivial: source length >= 2 split into >= 2 chunks, or length > N, or "
-          "the WriteTo path. Distinct by the full case encoding.",
-     assumptions=["sources obey the io.Reader contract (sticky errors, n<=len(p))", "Go runtime and rapid v1.3.0 are correct"],
-     technique="property-based testing (rapid) + exhaustive small-scope enumeration against a byte-level reference oracle",
-     level_text="Generated-input search: every case runs the real streams code and is judged by an explicit oracle (expected bytes, "
-                "terminal error class, close counts). Exhaustive for limits 0..5 x all chunk compositions; sampled beyond. No absence claim.",
-     level_note="Trusts the Go runtime, rapid, and the harness' scripted reader (which obeys the io.Reader contract).",
-     timeout_quick=300, timeout_thorough=1800)
+hc = os.path.join(ROOT, "HOOK_COMMITS.txt")
+if os.path.exists(hc):
+    HOOK_COMMITS = [l.split()[0] for l in open(hc) if l.strip() and not l.startswith("#")]
